@@ -28,3 +28,24 @@ contract(M, 'nfa_accepts_word', {'N': 'NFA', 'word': 'Word'}, returns='Bool',
          ensures=['result == nfa_accepts(N, word)'],
          loops={1: {'invariant': ['q == Nhat(N, prefix)']}},
          theories=['word', 'nfa'], props=['C01', 'C19'])
+
+# ---------------------------------------------------------------------------------------------- C03
+_DELTA_OK = 'delta[(%s, %s)] == name_of_set(Eclo(N, move(N, set_of_name(%s), %s))) and delta[(%s, %s)] in Q'
+_W = ['Sigma == N.Sigma', 'stateQ0 == name_of_set(Eclo(N, {N.q0}))', 'stateQ0 in Q', 'F <= Q',
+      'all(x == name_of_set(set_of_name(x)) and Sreach(N, set_of_name(x)) for x in Q)',
+      'all((x in F) == (not set_of_name(x).isdisjoint(N.F)) for x in Q)',
+      'all(name_of_set(todo[i]) in Q for i in range(len(todo)))',
+      'all(x in Q and a in Sigma and ' + (_DELTA_OK % ('x', 'a', 'x', 'a', 'x', 'a')) + ' for (x, a) in delta)']
+contract(M, 'nfa_to_dfa', {'N': 'NFA'}, returns='DFA', requires=['nfa_wf(N)'],
+         ensures=['dfa_wf(result)', 'subset_struct(N, result)', 'all(Sreach(N, set_of_name(x)) for x in result.Q)',
+                  'all(implies(over(N.Sigma, w), dfa_accepts(result, w) == nfa_accepts(N, w)) for w in allwords())',
+                  'all(x in Reach(result, result.q0) for x in result.Q)'],
+         types={'F': 'Set[State]', 'Q': 'Set[State]', 'delta': 'Map[(State,Symbol),State]', 'todo': 'List[Set[State]]', 'Q2': 'Set[State]'},
+         pre_return_asserts=['all((x, a) in delta for x in Q for a in Sigma)'],
+         asserts=['subset_struct(N, result)', 'all(implies(over(N.Sigma, w), dhat(result, result.q0, w) == name_of_set(Nhat(N, w)) and dhat(result, result.q0, w) in result.Q) for w in allwords())'],
+         loops={1: {'invariant': _W + ['all(any(name_of_set(todo[i]) == x for i in range(len(todo))) or all((x, a) in delta for a in Sigma) for x in Q)']},
+                2: {'ghost': 'doneS', 'invariant': _W + ['stateQ1 in Q', 'stateQ1 == name_of_set(Q1)', 'Q1 == set_of_name(stateQ1)',
+                                                        'all(x == stateQ1 or any(name_of_set(todo[i]) == x for i in range(len(todo))) or all((x, a) in delta for a in Sigma) for x in Q)',
+                                                        'all((stateQ1, a) in delta for a in doneS)']},
+                3: {'ghost': 'doneQ1', 'invariant': ['Q2 == move(N, doneQ1, a)']}},
+         theories=['nfa', 'subset'], props=['C03', 'C19', 'C13'])
